@@ -1,5 +1,6 @@
 import GstVerif.Grid.Driver
 import GstVerif.Poly.Driver
+import GstVerif.Db.Driver
 /-
   gstmodel: line-protocol driver.  One request per input line:
       <model> <op> <args…> => <implementation's answer…>
@@ -17,6 +18,7 @@ def dispatch (line : String) : String :=
   match req with
   | "g" :: args => Grid.handle args impl
   | "p" :: args => Poly.handle args impl
+  | "d" :: args => Db.handle args impl
   | _ => "bad-op"
 
 partial def loop (h : IO.FS.Stream) (out : IO.FS.Stream) : IO Unit := do
